@@ -21,7 +21,7 @@ EXTENDS LGraph, Json, IOUtils
 
 Cases == ndJsonDeserialize(IOEnv.CASES)
 
-View(c, sel, k) == CASE sel = "el" -> c.g.el[k] [] sel = "elch" -> c.g.elch[k] [] OTHER -> c.g.plain[k]
+View(c, sel, k) == CASE sel = "el" -> c.g.el[k] [] sel = "elch" -> c.g.elch[k] [] sel = "topo" -> c.g.topo[k] [] OTHER -> c.g.plain[k]
 
 QVerdict(c, q) ==
    LET A == View(c, q.sel, q.a)
